@@ -157,6 +157,22 @@ def table() -> dict[str, Prop]:
              [RF.rule_env, RF.rule_refkey, RF.rule_fold, RF.rule_resub, RF.rule_sib, MP.rule_map],
              not_decided="that parsing with a seeded env equals parsing the prepended definitions (equality of two parses), that the "
                          "reference form and the inline form yield equal tokens, and line counting inside multi-line titles"))
+    from .rules import typo_rules as TY
+    reg(Prop("C18", "renderer-only options (xhtmlOut, breaks, langPrefix, highlight) are read only by their documented render methods, "
+             "by nothing in the parse phase, and the self-closing spelling hangs on xhtmlOut's true branch at every site (OPTREAD); "
+             "the inline phase is closed over (content, md, env, token list) - nothing reachable from ParserInline.parse sees a block "
+             "or core state (INCLOSE); the parse phase writes per-call objects only (EFF); the placeholder eliminator also runs in "
+             "inline mode, i.e. covers every inline token of the stream (LIFE)",
+             [TY.rule_optread, TY.rule_inclose, EF.rule_eff, TK.rule_life],
+             not_decided="that each block context hands the inline text over unchanged (trimming / cell splitting are behaviour of the "
+                         "block rules), and parseInline == the single paragraph's children as an equality of two parses"))
+    reg(Prop("C19", "the typographic rules write only `.content` of tokens under a `type == 'text'` fact (and, for the replacements, "
+             "outside autolinks, whose bookkeeping no path can bypass), never restructure a token list or build tokens; replaceAt "
+             "substitutes exactly one character and is called with the apostrophe / configured quotes (TYPO); the core pipeline runs "
+             "inline < replacements, smartquotes < text_join (ORDER); escape / entity emit text_special, never plain text (TABLES)",
+             [TY.rule_typo, TY.rule_order, PL.rule_tables],
+             not_decided="index bookkeeping of replaceAt for multi-character quotes (pos arithmetic), and that smartquotes leaves "
+                         "autolink text alone (it does not on the pinned tree; the property's statement does not require it)"))
     # rules shared across properties (appended here because their modules are imported above)
     props["C11"].rules.append(SW.rule_fanout)          # the same coherence through the facade
     props["C14"].rules.append(SW.rule_fanout)          # reset_rules restores all four rulers with enableOnly
@@ -172,6 +188,10 @@ NOT_APPLICABLE["C06"] = ("a metamorphic relation between the parses of two diffe
                          "frames) are claimed under C07 and C17 instead")
 
 TECHNIQUE = {
+    "C18": "enumeration of every option read into a key -> reader table checked against the documented readers over the call "
+           "graph; type-based closure check of the inline phase; write-effect classification",
+    "C19": "who-may-write analysis of the typographic rule modules with predicate dominance (type == 'text', autolink counter) "
+           "over per-function CFGs; must-pass-through check of the autolink bookkeeping; rule-table order check",
     "C16": "alias-chain check of the env object over the resolved call graph; reaching-definition check that every reference-table "
            "key is a normalizeReference result; predicate dominance of the first-wins guard; transform-chain recognition of the "
            "label normaliser; sibling agreement of the three destination / title consumers",
